@@ -15,6 +15,11 @@ for _t, _b in INT_BITS.items():
         CORE_CONSTS[pre + "MIN"] = lo
         CORE_CONSTS[pre + "BITS"] = _b
 
+# bitcoin opcodes the code under analysis names (bitcoin 0.32 opcodes::all): carried as their byte values
+for _n, _v in (("OP_RETURN", 0x6a), ("OP_PUSHNUM_13", 0x5d), ("OP_FALSE", 0x00), ("OP_IF", 0x63), ("OP_ENDIF", 0x68)):
+    CORE_CONSTS["bitcoin::opcodes::all::" + _n] = Struct([_v])
+    CORE_CONSTS["opcodes::all::" + _n] = Struct([_v])
+
 MODELS = []   # (regex, fn)
 
 
@@ -2301,3 +2306,85 @@ def m_splitws_collect_ids(ex, st, func, args, argtys, dest_ty):
     facts = [a >= 0, a < 2**32, b >= 0, b < 2**32, a != b]
     return [("ret", ok(Container("hashset", [Struct([a, 0]), Struct([b, 0])])), z3.And(okf, *facts)),
             ("ret", err(Opaque("ParseError")), z3.Not(okf))]
+
+
+# ---- by-value array iteration (Tag::encode's `for value in values`)
+
+@model(r"^<\[.*; (N|\d+)\] as IntoIterator>::into_iter$")
+def m_array_into_iter(ex, st, func, args, argtys, dest_ty):
+    v = deref(args[0])
+    return [("ret", Opaque("owned_iter", {"items": list(v), "pos": 0}), None)]
+
+
+MODELS.insert(0, MODELS.pop())      # before the generic `as IntoIterator>::into_iter`
+
+
+@model(r"^<std::array::IntoIter<.*> as Iterator>::next$")
+def m_array_iter_next(ex, st, func, args, argtys, dest_ty):
+    it = deref(args[0]).data
+    if it["pos"] >= len(it["items"]):
+        return [("ret", none(), None)]
+    x = it["items"][it["pos"]]
+    it["pos"] += 1
+    return [("ret", some(x), None)]
+
+
+@model(r"^<u128 as From<T>>::from$")
+def m_u128_from_generic(ex, st, func, args, argtys, dest_ty):
+    """generic widening inside Tag::encode_option<T: Into<u128>> (T is u8/u32/u64/u128/char here): value-preserving"""
+    return [("ret", args[0], None)]
+
+
+@model(r"^<(std::vec::)?Vec<.*> as Clone>::clone$")
+def m_vec_clone(ex, st, func, args, argtys, dest_ty):
+    return [("ret", copy.deepcopy(deref(args[0])), None)]
+
+
+@model(r"slice::<impl \[.*\]>::sort_by_key::<.*>$")
+def m_slice_sort_by_key(ex, st, func, args, argtys, dest_ty):
+    """stable insertion sort; keys come from the closure, comparisons are decided by the solver
+    (derive(Ord) semantics on the keys)"""
+    base = cref(args[0])
+    v = base.get()
+    keyed = []
+    for x in list(v):
+        res = call_closure(ex, st, args[1], [Ref([x])])
+        live = [r for r in res if r[2] is None or is_conc(r[2]) and r[2] or (not is_conc(r[2]) and ex.feasible(st.pc, r[2]))]
+        if len(live) != 1 or live[0][0] != "ret":
+            raise Unsupported("sort_by_key closure forks or panics")
+        keyed.append((live[0][1], x))
+    out = []
+    for k, x in keyed:
+        pos = len(out)
+        for j, (k2, _) in enumerate(out):
+            lt, eq = lex_cmp(k, k2)
+            if ex.decide(st, lt):          # strictly smaller than an earlier element: goes before it (stable)
+                pos = j
+                break
+        out.insert(pos, (k, x))
+    v[:] = [x for _, x in out]
+    return [("ret", Struct([]), None)]
+
+
+# ---- bitcoin::script::Builder as an opaque value (encipher's last step: the payload is what matters)
+
+@model(r"^bitcoin::script::Builder::new$|^(bitcoin::)?script::Builder::new$")
+def m_builder_new(ex, st, func, args, argtys, dest_ty):
+    return [("ret", Opaque("script_builder", []), None)]
+
+
+@model(r"script::Builder::(push_opcode|push_slice::<.*>|push_slice)$")
+def m_builder_push(ex, st, func, args, argtys, dest_ty):
+    b = args[0]
+    b.data.append(args[1])
+    return [("ret", b, None)]
+
+
+@model(r"script::Builder::into_script$")
+def m_builder_into_script(ex, st, func, args, argtys, dest_ty):
+    return [("ret", Opaque("built_script", args[0].data), None)]
+
+
+@model(r"^<&(bitcoin::)?(script::)?PushBytes as TryFrom<&\[u8\]>>::try_from$|^<&\[u8\] as TryInto<&(bitcoin::)?(script::)?PushBytes>>::try_into$")
+def m_pushbytes_try_from(ex, st, func, args, argtys, dest_ty):
+    return [("ret", ok(args[0]), None)]
